@@ -60,13 +60,13 @@ def packageName (input opt : Bytes) : Bytes :=
 
 def importPath (input opt : Bytes) : Bytes := (optionPackage input opt).1
 
-def pbgo : Bytes := bytesOfString ".pb.go"
+def pbgo : Bytes := [46, 112, 98, 46, 103, 111]   -- ".pb.go"
 
 /-- `InputPath().SetExt(".pb.go")` -/
 def setExt (input : Bytes) : Bytes :=
   let base := FilePath.base input
   let ext := FilePath.ext input
-  let baseName := base.take (base.length - ext.length)      -- TrimSuffix(Base, Ext)
+  let baseName := trimSuffixB base ext      -- TrimSuffix(Base, Ext)
   FilePath.join [FilePath.dir input, baseName ++ pbgo]
 
 def outputPath (srcRel : Bool) (input opt : Bytes) : Bytes :=
